@@ -99,7 +99,7 @@ NOT_APPLICABLE = {
 
 
 # checks that were validated on the unchanged tree (clean long runs, determinism self-test)
-READY = {'C17', 'C18', 'C20', 'C02', 'C05', 'C09', 'C14', 'C16'}
+READY = {'C01','C02','C05','C06','C09','C10','C11','C14','C15','C16','C17','C18','C20'}
 
 
 def main():
